@@ -28,9 +28,11 @@ PROPS = ("C01",)
 
 
 @st.composite
-def cases(draw, op="read", invalid=False, many=False, size_bias=None, packing=False, fragfail=False):
+def cases(draw, op="read", invalid=False, many=False, size_bias=None, packing=False, fragfail=False, chunked=False):
     """packing: many requests for small tags with long names (the request, not the reply, fills the packet);
     fragfail: few requests for large tags and one service - usually a fragment of a transfer under way - refused by the target"""
+    if chunked:
+        size_bias, many = ["huge", "huge", "window"], False
     if fragfail:
         size_bias, many = ["window", "huge", "huge", "medium"], False
     pd = draw(G.projects(size_bias=size_bias, **({"max_tags": 4} if fragfail else {}))) if not packing else draw(G.projects(size_bias=["scalar"], max_tags=6, long_names=True))
@@ -87,6 +89,26 @@ def cases(draw, op="read", invalid=False, many=False, size_bias=None, packing=Fa
                 v0, v1 = draw(Q.value_for(p, t["type"], allow_long=False)), draw(Q.value_for(p, t["type"], allow_long=False))
                 r["value"] = [v0 if k % 3 else v1 for k in range(r["count"])]
             reqs.insert(0, r)
+    if chunked:
+        # one large array moved in consecutive chunks, each of them larger than a packet: the same tag several times in one call, with
+        # and without a start index (request paths of different length), every chunk a fragmented transfer of its own
+        from ..project import ATOMIC
+        conn = 4000 if cfg["fo_policy"] == "large" else 500
+        arrs = [t for t in pd["tags"] if len(t["dims"]) == 1 and t["type"] in ATOMIC and t["type"] not in ("DWORD", "BOOL") and p.tag_size(t) > 2 * conn + 64]
+        if arrs:
+            t = draw(st.sampled_from(arrs))
+            total, es = p.n_elements(t), p.elem_size(t["type"])
+            kmin = conn // es + 2
+            k = draw(st.one_of(st.integers(kmin, total // 2), st.sampled_from([kmin, total // 2])))
+            starts = list(range(0, total - k + 1, k))[:3]
+            chunks = []
+            for j, s0 in enumerate(starts):
+                r = {"scope": t.get("scope"), "tag": t["name"], "idx": [s0] if (s0 or draw(st.booleans())) else None, "path": [], "bit": None, "count": k, "invalid": None}
+                if op == "write":
+                    v0, v1 = draw(Q.value_for(p, t["type"], allow_long=False)), draw(Q.value_for(p, t["type"], allow_long=False))
+                    r["value"] = [v0 if (i + j) % 3 else v1 for i in range(k)]
+                chunks.append(r)
+            reqs = chunks + reqs[:3]
     if op == "write":
         reqs = S.dedupe_overlaps(p, reqs)
     case["reqs"] = reqs
